@@ -13,7 +13,7 @@ DESCRIPTION = {
              "code-point aligned prefix of the requested reason; onClose <=1 time, only at/after loss delivery, nothing delivered/written afterwards; wasClean => "
              "close frames in both directions and reported (code,reason) are the peer's; sendMessage outside OPEN raises Disconnected; is_closed resolved iff closed; "
              "teardown: once closing, the transport is dropped within closeHandshakeTimeout(+serverConnectionDropTimeout) with a silent peer.  encode_truncate has a "
-             "direct PBT.  Local sends include synchronous ones that leave a write queued; in a third of the configurations the loss of a transport the endpoint closed itself is delivered by the event loop on its next turn (as the real frameworks do); the transport state is recorded at the moment onClose runs.  Deadlines run from the moment the wait began (own close frame on the wire / close frames exchanged) and are checked after every event.  Exhaustive job: every sequence of 3 (thorough: 4) events from a 16-step alphabet after the handshake x both roles x failByDrop x scripted/loop-delivered loss x timeouts off/1 s.  Non-trivial = history with >=2 different close-relevant sources; distinct by digest of (config, steps). The application's onConnect() may return a pending Deferred/Future whose result (accept, failure with a short or an over-long text) is an event of the history - it may arrive after closing began, after a timeout or after the transport went away - or raise synchronously with a text beyond 123 octets; enumerated as well (10-event alphabet, all sequences of the tier's depth)."),
+             "direct PBT.  Local sends include synchronous ones that leave a write queued; in a third of the configurations the loss of a transport the endpoint closed itself is delivered by the event loop on its next turn (as the real frameworks do); the transport state is recorded at the moment onClose runs.  Deadlines run from the moment the wait began (own close frame on the wire / close frames exchanged) and are checked after every event.  Exhaustive job: every sequence of 3 (thorough: 4) events from a 16-step alphabet after the handshake x both roles x failByDrop x scripted/loop-delivered loss x timeouts off/1 s.  Non-trivial = history with >=2 different close-relevant sources; distinct by digest of (config, steps). The application's onConnect() may return a pending Deferred/Future whose result (accept, failure with a short or an over-long text) is an event of the history - it may arrive after closing began, after a timeout or after the transport went away - or raise synchronously with a text beyond 123 octets; enumerated as well (10-event alphabet, all sequences of the tier's depth). Local send 'stream-open' leaves a streaming-API frame open (announced 4 octets, 2 sent): from then on further application sends are not generated and the octet stream as a whole is not judged (a close inside an open frame has no well-formed encoding); each write is judged on its own for being a close frame, so 'clean only if close frames travelled in both directions' is still decided."),
     "assumptions": ["Twisted/asyncio transport contracts emulated in memory; the harness delivers connectionLost exactly once", "reason wording is not compared"],
 }
 
